@@ -5,6 +5,7 @@ CONSTANTS
   RecheckUnderLock = TRUE
   NotifyAfterPush = FALSE
   DrainRechecks = TRUE
+  DrainCountsAll = TRUE
 SPECIFICATION Spec
 INVARIANT TypeOK
 INVARIANT CountsAgree
